@@ -75,6 +75,8 @@ def pure_direct(case, obs):
 def pure_stats(rows):
     ncalls = 0
     lens, opk, cls = {}, {}, {}
+    typed = {"typed slices ([]T, T not any)": 0, "typed maps (map[K]T, T not any)": 0,
+             "narrow / unsigned integers and float32s (converted by the any type and the mappers)": 0}
     distinct = set()
     nontrivial = 0
     samples = []
@@ -82,6 +84,10 @@ def pure_stats(rows):
         pl = _P.case_payload(case)
         calls = _calls(pl)
         lens[len(calls)] = lens.get(len(calls), 0) + 1
+        typed["typed slices ([]T, T not any)"] += len(re.findall(r"\(sl \(slice (?!any\))", case))
+        typed["typed maps (map[K]T, T not any)"] += len(re.findall(r"\(m \(map \S+ (?!any\))", case))
+        typed["narrow / unsigned integers and float32s (converted by the any type and the mappers)"] += len(
+            re.findall(r"\((?:i (?:i0|i8|i16|i32|u0|u8|u16|u32|u64)|f f32) ", case))
         o = _parse_obs(re.sub(r"^\(obs \S+ ", "", obs)[:-1])
         items = [x for x in (o[1:] if o else []) if isinstance(x, list) and x and x[0] not in ("coll", "state", "after")]
         failing = False
@@ -101,7 +107,7 @@ def pure_stats(rows):
         if len(samples) < 3 and len(distinct) % 997 == 1:
             samples.append({"case": case[:1500], "observed": obs[:400]})
     return {"cases": len(rows), "calls": ncalls, "evaluations_per_call": 20, "history_lengths": lens, "operations": opk,
-            "outcome_classes": cls, "distinct": len(distinct), "distinct_nontrivial": nontrivial, "samples": samples}
+            "outcome_classes": cls, "typed_values_in_arguments": typed, "distinct": len(distinct), "distinct_nontrivial": nontrivial, "samples": samples}
 
 
 def pure_explain(case, obs, pred):
@@ -377,7 +383,8 @@ def register(props):
         "families": ["c12pure", "c12struct"],
         "rule": "c12pure: call histories of 1..12 calls (valid raw values, mutated ones, an arbitrary Go value injected at a random "
                 "position, the empty map that fills every default, native values for Validate/Serialize; failing calls included) on "
-                "every fixed schema of the C04 family and on seeded generated scopes; every call evaluated 20 times on freshly built "
+                "every fixed schema of the C04 family, on seeded generated scopes and on three fixed scope-free schemas whose "
+                "objects have defaults (top level, inline sub-object, list of objects); every call evaluated 20 times on freshly built "
                 "arguments on ONE instance; observables: outcome class, same/differs over the 20 results (canonical value), kept/mutated "
                 "(canonical print of the argument before/after), state (GetDefaults of every contained object before/after/fresh), "
                 "after (every call and three probes on the used vs a fresh instance; for schemas with inline objects and no scope "
@@ -387,7 +394,12 @@ def register(props):
                 "'07' / '+7' / int64 7: known-finding class D72); (cs SCHEMA2): ValidateCompatibility with a SCHEMA as argument - "
                 "the schema itself or a copy with one node changed (enum value added / dropped / named, bounds moved, property "
                 "dropped), built afresh for each of the 20 evaluations; its verdict is projected away (C15's), its purity flags are "
-                "not. c12struct: the same on struct-mapped parents with struct-typed members that have defaults, and on generated "
+                "not; typed containers at `any` positions (40 % of the raw values generated for an `any`, half of the `any` "
+                "positions of the native arguments of Validate / Serialize, found by walking schema and value together): "
+                "[]int8 .. []uint64, []string, []float32, []bool, map[string]intN, map[string]string, map[int64]string, "
+                "[]map[string]any, and []any / map[string]any / map[any]any whose elements or integer keys are narrow or unsigned "
+                "integers, float32s or such containers again - everything the any type converts element by element, so a "
+                "conversion written back into the caller's value shows as `mutated`. c12struct: the same on struct-mapped parents with struct-typed members that have defaults, and on generated "
                 "struct-mapped schemas over the struct family of xstruct_types.go (T and *T, embedded structs and embedded pointers, "
                 "nil pointers at every pointer position of the native arguments). distinct by case text; non-trivial = >= 2 calls "
                 "with a failing call or a structured argument",
